@@ -21,9 +21,27 @@ def jobs(prop, tier):
                          bounds='all escaped sequences of exactly %d bytes (all values), both hex digit cases per digit' % nh))
         J.append(Job('C11', 'addr', 'C11_kernels.cpp', defs={'H_ADDR': None}, unwind=2, shape='K',
                      bounds='all 256 addresses x all 256 second addresses'))
+    if prop == 'C01':
+        BUS = dict(link=['lib/ebus/symbol.cpp', 'lib/ebus/device_trans.cpp', 'lib/ebus/result.cpp', 'lib/utils/thread.cpp'],
+                   models=['string', 'libc', 'sstream', 'posix', 'containers'], solver='cadical')
+        k = 16 if T else 10
+        J.append(Job('C01', 'run_plain', 'C01_passive.cpp', defs={'K': k}, unwind=3, shape='R', timeout=2400 if T else 300,
+                     unwindset={}, bounds='%d handler steps from the real initial state, every read result symbolic' % k, **BUS))
     return J
 
+COMMON_ASSUME = ['clang-14 -O1 lowering + ll2c translation (validated per run against the native build on witness and random tapes)',
+                 'operator new never fails', 'CBMC 6.11 + SAT/SMT back end', 'models/*.c for libstdc++/libc externals (DESIGN 2.3)']
+BUS_NOTE = ('Trusted: clang-14 lowering, ll2c, models (string, sstream, posix, cxxabi, vecgrow), CBMC + CaDiCaL. Environment: TapeTransport '
+            '(every read result = timeout | error | chunk of 1..2 arbitrary bytes), clock = arbitrary non-decreasing instants, logging off. '
+            'DirectProtocolHandler::run() itself (thread start, 5 s reopen wait) is not encoded; its loop body is re-stated in env_bus.h Stepper.')
 META = {
+ 'C01': dict(
+   claimed=False, na_reason='harnesses C01_passive.cpp / C01_step.cpp exist but no bound profile finishes under the cap yet (CBMC symex on the translated handler: K=1 57 s, K=2 no verdict in 400 s); not claimed until a profile passes',
+   level_text='Bounded model checking of the real DirectProtocolHandler + PlainDevice: K handler steps from the real initial state, every byte, chunking, timeout and read error chosen by the solver; after every step the reported messages are compared with an independent incremental eBUS telegram recogniser. Holds for all streams within the step bound.',
+   level_note=BUS_NOTE,
+   outside_claim='streams longer than K symbols (so NN > K-7), the enhanced device variant, durations (timeouts are symbolic outcomes, not times), run() reopen loop',
+   assumptions=COMMON_ASSUME,
+ ),
  'C11': dict(
    outside_claim='CRC strings longer than the fold bound (covered by the step lemma + fold induction argument, not by a query); '
                  'hex parsing of strings longer than the bound',
